@@ -152,25 +152,13 @@ pub fn sn_set<const W: usize>(base: i64, nb: u32) -> SequenceNumberSet {
     }
 }
 
-/// A FragmentNumberSet with an arbitrary base and the members {base, base+2, base+32, base+33}
-/// (numBits 34), obtained from the real element decoder applied to a little-endian wire image with
-/// concrete numBits / bitmap words (a symbolic bitmap is not tractable for this decoder, see C07).
+/// FragmentNumberSet {base, base+2, base+32, base+33} (numBits 34) built by the real constructor.
+/// `base` must be a concrete value: FragmentNumberSet::new computes numBits from
+/// `fragment_number - base`, which CBMC only folds to a constant for a concrete base - with a
+/// symbolic base numBits, and with it every encoder length, becomes symbolic (measured: 1.1 M
+/// steps, > 9 GB).
 pub fn fn_set_34(base: u32) -> FragmentNumberSet {
-    let mut b = [0u8; 16];
-    let x = [base.to_le_bytes(), 34u32.to_le_bytes(), 0xa000_0000u32.to_le_bytes(), 0xc000_0000u32.to_le_bytes()];
-    let mut i = 0;
-    while i < 16 {
-        b[i] = x[i / 4][i % 4];
-        i += 1;
-    }
-    let mut d = &b[..];
-    match FragmentNumberSet::try_read_from_bytes(&mut d, &Endianness::LittleEndian) {
-        Ok(s) => s,
-        Err(_) => {
-            assert!(false, "harness: FragmentNumberSet image rejected");
-            unreachable!()
-        }
-    }
+    FragmentNumberSet::new(base, [base + 33, base, base + 2, base + 32])
 }
 
 /// The two calls one arm of the dispatcher in RtpsMessageRead::try_from makes for the submessage at
